@@ -448,6 +448,7 @@ def count(ctx: Ctx) -> None:
     if ok is None:
         ok = ctx.present(ck, False, "ChunkKeys.__iter__: product over per-axis ranges")
     ctx.ob(ck, None, ok, "ChunkKeys iterates the full product of range(len(c)) over its chunks", sel="count:chunkkeys")
+    _fresh_iter(ctx, ck.parent if ck.parent is not None and ck.parent.kind == "class" else ck)
     # the primitive stores the task iterable as it was given (or its own ChunkKeys): no
     # one-shot wrapper around it
     pg = repo.get(f"{A.PBW}.general_blockwise")
@@ -505,6 +506,17 @@ def count(ctx: Ctx) -> None:
                 sel="count:reiterable",
                 props=["C13", "C11"],
             )
+            # an instance of a class of the package: its __iter__ hands out a fresh iterator on
+            # every call (no one-shot iterator remembered on the instance)
+            if cfg_.has(c):
+                vals = [ob_]
+                if isinstance(ob_, ast.Name):
+                    vals = [s_.value for s_ in fl.rdefs(ob_.id, cfg_.node_of(c)) if s_.value is not None]
+                for v_ in vals:
+                    if isinstance(v_, ast.Call):
+                        for t_ in repo.resolve_call(v_, d, d.module):
+                            if t_.kind == "class" and getattr(t_.ref, "kind", None) == "class":
+                                _fresh_iter(ctx, t_.ref)
             t_ob = fl.taint(ob_) - {"self"}
             t_nt = fl.taint(nt_) - {"self"}
             # (weak by nature: both must at least be computed from this call's operands; whether
@@ -518,6 +530,47 @@ def count(ctx: Ctx) -> None:
                 + ("" if same else " — the iterable follows one array and the count another: they agree only when the two chunkings agree"),
                 sel="count:explicit-origin",
             )
+
+
+ONE_SHOT_BUILTINS = ("map", "filter", "zip", "iter", "enumerate", "reversed")
+
+
+def _is_one_shot(v_: ast.AST) -> bool:
+    return isinstance(v_, ast.GeneratorExp) or (isinstance(v_, ast.Call) and isinstance(v_.func, ast.Name) and v_.func.id in ONE_SHOT_BUILTINS) or (isinstance(v_, ast.Call) and (attr_chain(v_.func) or "").startswith("itertools."))
+
+
+def _fresh_iter(ctx: Ctx, cls) -> None:
+    """a task iterable class: __iter__ returns an iterator built by that call — it neither
+    stores a one-shot iterator on the instance nor returns one stored there"""
+    it = cls.children.get("__iter__")
+    if it is None or not it.is_func or not it.params:
+        return
+    me = it.params[0]
+    stored = {}
+    for m in cls.children.values():
+        if not m.is_func or not m.params:
+            continue
+        for n in m.own_nodes():
+            tg = n.targets if isinstance(n, ast.Assign) else [n.target] if isinstance(n, ast.AnnAssign) and n.value is not None else []
+            for t in tg:
+                if isinstance(t, ast.Attribute) and isinstance(t.value, ast.Name) and t.value.id == m.params[0] and _is_one_shot(n.value):
+                    stored[t.attr] = (m, n)
+    bad = None
+    for n in it.own_nodes():
+        if isinstance(n, ast.Return) and n.value is not None:
+            for x in ast.walk(n.value):
+                if isinstance(x, ast.Attribute) and isinstance(x.value, ast.Name) and x.value.id == me and x.attr in stored:
+                    bad = (x.attr, stored[x.attr][1])
+    ctx.ob(
+        cls,
+        bad[1] if bad else it.node,
+        bad is None,
+        f"{cls.name}.__iter__ builds a fresh iterator on every call"
+        + ("" if bad is None else f" — it returns `self.{bad[0]}`, a one-shot iterator (`{unparse(bad[1].value, 40)}`) kept on the instance: the second walk of the same plan object (second compute, fusion, resume) finds it exhausted while num_tasks still advertises the full count"),
+        sel="count:reiterable:class",
+        props=["C13", "C11"],
+        firm=True,
+    )
 
 
 def _same_population(repo, f, fl, cfg, nt, po, mp, cp):
